@@ -34,6 +34,7 @@ from concurrent.futures import ThreadPoolExecutor
 from vf import build, tlc, trace, ledgerkit
 from vf import run as hrun
 from vf.core import InfraError
+from checks.deferred import Deferred, crash_signal
 
 LEVEL = "exploration"
 READY = True
@@ -268,8 +269,10 @@ def _classes_of_case(c):
 
 
 # ------------------------------------------------------------------------------------------------ (M)/(GEN) + replay
-def exact_part(ctx, exe, rd, cfgs, units="all", loc_full=4000, loc_stride=5):
+def exact_part(ctx, exe, rd, cfgs, units="all", loc_full=4000, loc_stride=5, deferred=None):
+    deferred = Deferred(ctx) if deferred is None else deferred
     cases = []
+    lines = []
     nfirst = None
     for cfg, workers, label in cfgs:
         if isinstance(cfg, dict):        # constants computed per run
@@ -293,17 +296,21 @@ def exact_part(ctx, exe, rd, cfgs, units="all", loc_full=4000, loc_stride=5):
             # location units: the first loc_full sampled cases (random shapes up to 5x2) in all of them, the other sampled ones and every loc_stride-th enumerated one in one unit each (rotating)
             loc = 0 if c["tss"][0] == 0 else (2 if nfirst <= i < nfirst + loc_full else (1 if i >= nfirst or i % loc_stride == 0 else 0))
             nloc += loc > 0
-            f.write("%d %d %s %s %d %s %d\n" % (c["n"], c["p"], " ".join(str(v) for row in c["X"] for v in row), " ".join(str(v) for v in c["y"]),
-                                                len(c["xnew"]), " ".join(str(v) for row in c["xnew"] for v in row), loc))
+            lines.append("%d %d %s %s %d %s %d\n" % (c["n"], c["p"], " ".join(str(v) for row in c["X"] for v in row), " ".join(str(v) for v in c["y"]),
+                                                     len(c["xnew"]), " ".join(str(v) for row in c["xnew"] for v in row), loc))
+            f.write(lines[-1])
     out, evout = os.path.join(rd, "replay.ndjson"), os.path.join(rd, "replay_loc.ndjson")
     h = hrun.run(exe, ["--replay", path, out, units, evout], timeout=2400)
     if h.san:
         ctx.violation("MLR:%s" % h.san, "sanitizer report while replaying TLC's tiny cases:\n%s" % h.err[:1500], dict(kind="tiny-all"))
-    elif h.rc != 0:
-        raise InfraError("c07 replay failed rc=%d: %s" % (h.rc, h.err[-500:]))
     res = hrun.read_ndjson(out)
+    if h.rc != 0 and not h.san:
+        # the replay runs every tiny case in ONE process: a library that aborts on one of them ends it.  The case is located by running the cases that follow the
+        # last complete result line one by one (each in its own process); the results written so far are still compared below
+        if not (crash_signal(h.rc) and _locate_tiny_crash(ctx, exe, rd, cases, lines, max([g["id"] for g in res] + [0]))):
+            deferred.add("c07 replay failed rc=%d: %s" % (h.rc, h.err[-500:]))
     seen = set(g["id"] for g in res)
-    if len(seen) != len(cases) and not h.san:
+    if len(seen) != len(cases) and not h.san and h.rc == 0:
         raise InfraError("c07 replay returned results for %d of %d cases" % (len(seen), len(cases)))
     worst, nscaled = 0.0, 0
     exact = {}
@@ -359,7 +366,9 @@ def exact_part(ctx, exe, rd, cfgs, units="all", loc_full=4000, loc_stride=5):
     for k, v in clsn.items():
         ctx.cls(k if isinstance(k, str) else "K4:units 2^%d,2^%d,+%g (exact part)" % k, v)
     if nscaled == 0:
-        raise InfraError("c07 replay produced no run in other units")
+        if h.rc == 0:
+            raise InfraError("c07 replay produced no run in other units")
+        deferred.add("c07 replay produced no run in other units")
     ctx.cov["exact_case_runs_in_other_units"] = nscaled
     for c in cases[:2] + cases[len(cases) // 2:len(cases) // 2 + 1]:
         ctx.sample(dict(kind="exact case from Mlr.tla", X=c["X"], y=c["y"], b=c["b"], r2=c["r2"], sdec2=c["sdec2"]), 3)
@@ -367,9 +376,27 @@ def exact_part(ctx, exe, rd, cfgs, units="all", loc_full=4000, loc_stride=5):
     # ---- location units: judged by TLC (TinyU)
     tu = hrun.read_ndjson(evout)
     if nloc and not tu and not h.san:
-        raise InfraError("c07 replay wrote no TinyU event although %d cases asked for location units" % nloc)
+        if h.rc == 0:
+            raise InfraError("c07 replay wrote no TinyU event although %d cases asked for location units" % nloc)
+        deferred.add("c07 replay wrote no TinyU event although %d cases asked for location units" % nloc)
     tinyu_part(ctx, tu)
     return len(cases), tu
+
+
+def _locate_tiny_crash(ctx, exe, rd, cases, lines, start, span=64):
+    """which of TLC's tiny cases ends the replay process?  -> True when one was found (reported with the module's crash signature and its own replay)"""
+    for i in range(start, min(len(cases), start + span)):
+        path = os.path.join(rd, "one_case.txt")
+        with open(path, "w") as f:
+            t = lines[i].split()
+            f.write(" ".join(t[:-1] + ["2" if t[-1] != "0" else "0"]) + "\n")          # alone in its file the case has id 0: ask for every location unit instead of the rotating one
+        h1 = hrun.run(exe, ["--replay", path, os.path.join(rd, "one_out.ndjson"), "all", os.path.join(rd, "one_ev.ndjson")], timeout=120)
+        if h1.san or crash_signal(h1.rc):
+            c = cases[i]
+            ctx.violation("MLR:%s" % (h1.san or "crash"), "X=%s y=%s: the library did not return on this tiny case of Mlr.tla (%s; it ended the replay of all cases):\n%s" % (
+                c["X"], c["y"], h1.san or crash_signal(h1.rc), h1.err[-800:]), dict(kind="tiny", X=c["X"], y=c["y"], xnew=c["xnew"]))
+            return True
+    return False
 
 
 def tinyu_part(ctx, tu, label="trace_tinyu"):
@@ -427,7 +454,8 @@ def _reject_handler(ctx, replay_of, events=()):
     return on_reject
 
 
-def validate_part(ctx, exe, rd, total, parts, only=None):
+def validate_part(ctx, exe, rd, total, parts, only=None, deferred=None):
+    deferred = Deferred(ctx) if deferred is None else deferred
     if only is not None:
         seed = only["seed"]
         h = hrun.run(exe, [os.path.join(rd, "r.ndjson"), seed, only["idx"], only.get("count", 1)], timeout=600)
@@ -440,16 +468,17 @@ def validate_part(ctx, exe, rd, total, parts, only=None):
     _annotate(events)
     cases = [e for e in events if e["e"] == "Case"]
     if not cases:
-        raise InfraError("c07 harness produced no Case events")
+        deferred.add("c07 harness produced no Case events")
     kinds = {k: sum(1 for e in events if e["e"] == k) for k in ("Coef", "Normal", "Stat", "Recover", "Pred", "PredStat", "NewStat", "Pair", "Reuse", "Tiny")}
     pairs = {}
     for e in events:
         if e["e"] == "Pair":
             pairs[e["kind"]] = pairs.get(e["kind"], 0) + 1
+    # vacuity findings are judged after the trace validation: fits that die on a changed tree (Abort) leave these counts empty
     if only is None and min(kinds.values()) == 0:
-        raise InfraError("c07 harness stopped logging some event kind: %s" % kinds)
+        deferred.add("c07 harness stopped logging some event kind: %s" % kinds)
     if only is None and set(pairs) != {"affine", "shift", "xscale", "xshift", "remix"}:
-        raise InfraError("c07 harness stopped running some kind of paired run: %s" % pairs)
+        deferred.add("c07 harness stopped running some kind of paired run: %s" % pairs)
     clsn = {}
     for c in cases:
         ctx.case(("V", c["n"], c["p"], c["ny"], c["noise"], c.get("cls")), True)
@@ -462,9 +491,9 @@ def validate_part(ctx, exe, rd, total, parts, only=None):
     if only is None:
         missing = [k for k in ("base", "K3:resp-offset", "K3:pred-offset", "K1:saturated", "K2:block-edge", "K4:magnitude", "K5K8:grid-dup", SENT) if not clsn.get(k)]
         if missing:
-            raise InfraError("c07 harness generated no case of class %s (%s)" % (missing, clsn))
+            deferred.add("c07 harness generated no case of class %s (%s)" % (missing, clsn))
         if not any(c.get("off", 0) >= 100000000 for c in cases) or not any(c["n"] == c["p"] + 1 for c in cases):
-            raise InfraError("c07 harness reached no response at |mean|/sdev >= 1e8 or no saturated case")
+            deferred.add("c07 harness reached no response at |mean|/sdev >= 1e8 or no saturated case")
     for b in tlc.split_blocks(events):
         f = [e for e in b if e["e"] == "Case"]
         if not f or any(e["e"] in ("Abort", "Shape") for e in b):
@@ -496,7 +525,8 @@ def validate_part(ctx, exe, rd, total, parts, only=None):
 
     def replay_of(ev):
         return dict(kind="case", seed=seed, idx=ev.get("case"), event={k: v for k, v in ev.items() if k not in ("cx", "hx")})
-    ledgerkit.check(ctx, "TraceMlr", "Trace_Mlr.cfg", "Trace_Mlr_prop.cfg", events, _reject_handler(ctx, replay_of, events), "trace_mlr")
+    if events:
+        ledgerkit.check(ctx, "TraceMlr", "Trace_Mlr.cfg", "Trace_Mlr_prop.cfg", events, _reject_handler(ctx, replay_of, events), "trace_mlr")
     ctx.traces(len(cases))
     return events
 
@@ -506,7 +536,8 @@ REL_CLASS = {"same-shape": "K7:same-shape-other-data", "other-shape": "K7:other-
              "same-data": "K7:same-data-again"}
 
 
-def history_part(ctx, exes, rd, nhist, only=None):
+def history_part(ctx, exes, rd, nhist, only=None, deferred=None):
+    deferred = Deferred(ctx) if deferred is None else deferred
     """real-valued histories on both builds; every fit block is validated like a single fit, Refit blocks separately (EXTRA)"""
     allev = []
     for bname, exe in exes.items():
@@ -531,7 +562,7 @@ def history_part(ctx, exes, rd, nhist, only=None):
         ols = [e for e in events if e["e"] == "OlsCase"]
         refit = [e for e in events if e["e"] == "Refit"]
         if only is None and (not hist or not ols or not refit):
-            raise InfraError("c07 history driver (%s) logged no Hist / OlsCase / Refit event: %d %d %d" % (bname, len(hist), len(ols), len(refit)))
+            deferred.add("c07 history driver (%s) logged no Hist / OlsCase / Refit event: %d %d %d" % (bname, len(hist), len(ols), len(refit)))
         for e in hist:
             ctx.case(("H", bname, e["h"], e["step"]), True)
             if e["rel"] in REL_CLASS:
@@ -571,7 +602,8 @@ def history_part(ctx, exes, rd, nhist, only=None):
             if hh is None and ev.get("case") is not None:
                 hh = (ev["case"] - 1000000) // 16
             return dict(kind="hist", seed=seed, h=hh, build=bname, event={k: v for k, v in ev.items() if k not in ("cx", "hx")})
-        ledgerkit.check(ctx, "TraceMlr", "Trace_Mlr.cfg", "Trace_Mlr_prop.cfg", main, _reject_handler(ctx, replay_of), "trace_hist_%s" % bname)
+        if main:
+            ledgerkit.check(ctx, "TraceMlr", "Trace_Mlr.cfg", "Trace_Mlr_prop.cfg", main, _reject_handler(ctx, replay_of), "trace_hist_%s" % bname)
         ctx.traces(len(hist) + len(ols))
         if bname == "plain":
             for b in tlc.split_blocks(main):
@@ -770,17 +802,19 @@ def run(ctx):
     ]
     exe, exes = _builds()
     rd = tlc.rundir()
+    deferred = Deferred(ctx)
     try:
         if ctx.quick:
-            n, tu = exact_part(ctx, exe, rd, [("MC_Mlr_quick.cfg", 8, "gen_all_3x1"), ("MC_Mlr_sample.cfg", 6, "gen_sample")], loc_full=700, loc_stride=7)
-            events = validate_part(ctx, exe, rd, 720, 8)
-            hev = history_part(ctx, exes, rd, 50)
+            n, tu = exact_part(ctx, exe, rd, [("MC_Mlr_quick.cfg", 8, "gen_all_3x1"), ("MC_Mlr_sample.cfg", 6, "gen_sample")], loc_full=700, loc_stride=7, deferred=deferred)
+            events = validate_part(ctx, exe, rd, 720, 8, deferred=deferred)
+            hev = history_part(ctx, exes, rd, 50, deferred=deferred)
             tiny_history_part(ctx, exes, rd, 3)
         else:
             n, tu = exact_part(ctx, exe, rd, [("MC_Mlr_quick.cfg", 16, "gen_all_3x1"), ] + [
-                (dict(Mode="all", NN=4, PP=1, Samples=1, Chains=1, Slice=k), 16, "gen_all_4x1_slice%d" % k) for k in range(1, 6)] + [("MC_Mlr_sample_thorough.cfg", 16, "gen_sample")], units="rot", loc_full=2500, loc_stride=10)
-            events = validate_part(ctx, exe, rd, 18000, 16)
-            hev = history_part(ctx, exes, rd, 1200)
+                (dict(Mode="all", NN=4, PP=1, Samples=1, Chains=1, Slice=k), 16, "gen_all_4x1_slice%d" % k) for k in range(1, 6)] + [("MC_Mlr_sample_thorough.cfg", 16, "gen_sample")], units="rot", loc_full=2500, loc_stride=10,
+                               deferred=deferred)
+            events = validate_part(ctx, exe, rd, 18000, 16, deferred=deferred)
+            hev = history_part(ctx, exes, rd, 1200, deferred=deferred)
             tiny_history_part(ctx, exes, rd, 5)
         ctx.cov["rule"] = ("exact part: every full-rank (X, y) with X in {-2..2}^(3x1), y in {-2..2}^3 (thorough: also 4x1) plus random shapes n 3..5, p 1..2 over the same alphabet, "
                            "each a distinct case keyed by (X, y), non-trivial iff y is not constant; location units keyed by (X, y, unit); validate part: seeded random problems n 4..50, p 1..min(10,n-1), 1..4 responses, "
@@ -788,11 +822,13 @@ def run(ctx):
                            "cond([1 X]) <= 1e4, keyed by (n, p, ny, noise class, input class); histories keyed by (build, history, step); TLC's histories keyed by (build, operations)")
         ctx.cov["exact_cases_replayed"] = n
         try:
-            selftests(ctx, events, hev, tu)
+            if not deferred:
+                selftests(ctx, events, hev, tu)
         except (InfraError, tlc.TlcInfraError) as e:
             if not ctx.violations:
                 raise
             ctx.note("binding self-test not conclusive on a trace that already carries violations: %s" % str(e)[:300])
+        deferred.settle()
     finally:
         shutil.rmtree(rd, ignore_errors=True)
 
